@@ -53,3 +53,4 @@ def run(ctx):
         for kind in ("wb", "wt"):
             cachebfs.explore(ctx, Cfg(*g, kind, policy, 0, "control", True, "base", True), WANT, 60)
     ctx.require("cache-eviction", "cache-fill", "rejected")
+    cachebfs.deep_paths(ctx, WANT)
